@@ -208,6 +208,59 @@ def callInstance (iter : Val → Option (List Val)) (f : FnVal) (inst : Val) (ar
   let (rs, n, p) := compileCall .null none args
   callCallable iter rs (some inst) n p f generator
 
+/-- `lhs -> m.f args` (also through a longer chain `a.b.m.f`): the piped value is inserted as the
+first argument *and* the parent container of the chain's last access is the call's instance -/
+def callPipedInstance (iter : Val → Option (List Val)) (f : FnVal) (inst lhs : Val) (args : List CallArg)
+    (generator := false) : Except Err Regs :=
+  let (rs, n, p) := compileCall .null (some lhs) args
+  callCallable iter rs (some inst) n p f generator
+
+/-! ## Creation of the captures list (`run_make_function`, `compile_function`, `run_capture_value`)
+
+`Function` creates a list of `optional_arg_count + capture_count` nulls. `Capture function, slot, value`
+ops then fill it: default `i` goes to slot `i`; capture `j` goes to slot `optional_arg_count + j` —
+immediately when the captured variable is assigned, and *deferred* until the enclosing assignment
+is committed when it is the function's own (still reserved) name. -/
+
+/-- where a captured value comes from -/
+inductive CapSrc where
+  | val (v : Val)      -- an assigned variable of the enclosing frame: captured now
+  | self               -- the function's own assignment target: captured on commit
+  deriving Inhabited
+
+def setSlot (slots : List Val) (i : Nat) (v : Val) : List Val := slots.set i v
+
+/-- `Capture f, i, default_i` for the defaults, in order -/
+def applyDefaultCaps : List Val → Nat → List Val → List Val
+  | slots, _, [] => slots
+  | slots, i, v :: vs => applyDefaultCaps (setSlot slots i v) (i + 1) vs
+
+/-- the capture loop of `compile_function`: immediate captures are written, deferred ones are
+remembered as `(slot)` and written after the commit. `opt` = `optional_arg_count`. -/
+def applyCaptureOps (opt : Nat) : List Val → Nat → List CapSrc → List Val × List Nat
+  | slots, _, [] => (slots, [])
+  | slots, j, .val v :: cs => applyCaptureOps opt (setSlot slots (opt + j) v) (j + 1) cs
+  | slots, j, .self :: cs =>
+    let (slots', deferred) := applyCaptureOps opt slots (j + 1) cs
+    (slots', (opt + j) :: deferred)
+
+def applyDeferred (fnVal : Val) : List Val → List Nat → List Val
+  | slots, [] => slots
+  | slots, i :: is => applyDeferred fnVal (setSlot slots i fnVal) is
+
+/-- the captures list of a function after its creation and the commit of its assignment;
+`fnVal` stands for the function value itself -/
+def createCaptures (defaults : List Val) (caps : List CapSrc) (fnVal : Val) : List Val :=
+  let slots := List.replicate (defaults.length + caps.length) Val.null
+  let slots := applyDefaultCaps slots 0 defaults
+  let (slots, deferred) := applyCaptureOps defaults.length slots 0 caps
+  applyDeferred fnVal slots deferred
+
+/-- the documented content of the list -/
+def CapSrc.value (fnVal : Val) : CapSrc → Val
+  | .val v => v
+  | .self => fnVal
+
 /-! ## Iteration of packed arguments (`make_iterator`) for the value kinds the harness generates -/
 
 def rangeElems (a : Int) : Nat → List Val
